@@ -8,7 +8,8 @@ Mirrors `include/mp/valcvt.h` (`ValuePresolverImpl::Add`, `ExportRemainingEntrie
 one link object per kind, export switched on from the start.
 
 * `CopyLink::AddEntry` extends its **last entry in place** when source and destination ranges are
-  both extendable – without registering anything;
+  both extendable – without registering anything – but (since /repo 5f9dc1e) only if that entry is the
+  most recently registered one in the presolver's chain (`IsLastRegisteredEntry`);
 * `Many2ManyLink::AddEntry` does the same when the sources (resp. targets) are equal and the other
   side is extendable (`TryExtendBy` mutates inside the condition);
 * `Add(LinkRange)` extends the last registered range if it is the same link and consecutive,
@@ -118,11 +119,18 @@ def replaceLast (s : PState) (k : LKind) (e : Entry) : PState :=
   let l := s.ents k
   { s.setEnts k (l.dropLast ++ [e]) with late := s.late || isExported s k (l.length - 1) }
 
+/-- `ValuePresolverImpl::IsLastRegisteredEntry(link, entries_.size()-1)` -/
+def isLastReg (s : PState) (k : LKind) : Bool :=
+  match s.brl.getLast? with
+  | some b => b.link = k && b.end_ = (s.ents k).length
+  | none => false
+
 /-- `CopyLink::AddEntry` / `Many2ManyLink::AddEntry` -/
 def addEntry (s : PState) (k : LKind) (e : Entry) : PState :=
   match (s.ents k).getLast? with
   | none => pushEntry s k e
   | some last =>
+    if !isLastReg s k then pushEntry s k e else
     match k with
     | .copy =>
       if last.1.extendableBy e.1 && last.2.extendableBy e.2 then
